@@ -42,6 +42,12 @@ type c10Op struct {
 	// retransmits the first message of the new context (T3560 expired) - same header type, but the downlink NAS
 	// COUNT is not reset a second time: it is incremented as for every retransmitted message (TS 24.501 4.4.3.1)
 	Retx bool `json:"retransmission,omitempty"`
+	// ReAuth: before this message arrives the UE answers a new authentication challenge (DeriveRESstarAndSetKey on the
+	// same context: K_AUSF..K_AMF and the algorithm keys of the NEXT, still partial context). The context in use - and
+	// with it the downlink COUNT - stays what it is until a Security Mode Command takes the new one into use
+	// (TS 33.501 6.9.4). Only effective under NEA0: the emulator overwrites K_NASenc at once, so a ciphered
+	// message of the old context could not be read by the unchanged tree either.
+	ReAuth bool `json:"re_authentication_before,omitempty"`
 }
 
 type c10Case struct {
@@ -50,6 +56,9 @@ type c10Case struct {
 	Int   []byte  `json:"knas_int"`
 	EA    uint8   `json:"ea"`
 	IA    uint8   `json:"ia"`
+	// Kamf: the context holds a K_AMF, as every context does that registered (RegisterUE derives it); the tests set the
+	// algorithm keys directly, which leaves it empty otherwise
+	Kamf  bool    `json:"has_kamf,omitempty"`
 	Last  uint32  `json:"last_count"` // DL NAS COUNT of the last message the UE received in this context (0: none yet)
 	ULCnt uint32  `json:"ul_count"`   // UE's uplink counter (must not be touched by downlink processing)
 	Ops   []c10Op `json:"ops"`
@@ -89,6 +98,9 @@ func genC10Op(skipHeavy bool) func(t *rapid.T) c10Op {
 				op.Skip = genSkip(t, "skip")
 			}
 		}
+		if rapid.IntRange(0, 11).Draw(t, "reauth") == 5 {
+			op.ReAuth = true
+		}
 		if op.HT >= 3 && rapid.IntRange(0, 2).Draw(t, "retx") == 1 {
 			op.Retx = true
 		}
@@ -119,6 +131,7 @@ func genC10N(minOps, maxOps int, skipHeavy bool) func(t *rapid.T) c10Case {
 		// the history is one rapid slice value: rapid can drop and simplify single operations when shrinking
 		c.Ops = rapid.SliceOfN(rapid.Custom(genC10Op(skipHeavy)), minOps, maxOps).Draw(t, "ops")
 		c.Log = rapid.SampledFrom(logLevels).Draw(t, "nas_log_level")
+		c.Kamf = rapid.Bool().Draw(t, "has_kamf")
 		return c
 	}
 }
@@ -223,6 +236,10 @@ func c10Oracle0(c c10Case) (v ev.Verdict) {
 	ue.KnasEnc, ue.KnasInt = ctx.KnasEnc, ctx.KnasInt
 	ue.DLCount.Set(uint16(c.Last>>8), uint8(c.Last))
 	ue.ULCount.Set(uint16(c.ULCnt>>8), uint8(c.ULCnt))
+	if c.Kamf {
+		ue.Kamf = bytes.Repeat([]byte{0x5a}, 32)
+		cls["context-holds-a-kamf"] = true
+	}
 	// AMF state
 	last := c.Last    // COUNT of the last protected message sent in this context
 	next := uint32(0) // COUNT of the next one
@@ -253,6 +270,23 @@ func c10Oracle0(c c10Case) (v ev.Verdict) {
 			return v
 		}
 		cls[fmt.Sprintf("ht%d", op.HT)] = true
+		if op.ReAuth && ctx.EA == 0 && ue.CipheringAlg == 0 {
+			ulBefore, dlBefore := ue.ULCount.Get(), ue.DLCount.Get()
+			_, site := ev.Guard(func() error {
+				subs := tglib.GetAuthSubscription("465b5ce8b199b49faa5f0a2ee238a6bc", "cd63cb71954a9f4e48a5994e37a02baf", "")
+				var autn [16]byte
+				autn[3] = byte(i)
+				ue.DeriveRESstarAndSetKey(subs, autn, bytes.Repeat([]byte{byte(0x40 + i)}, 16), "5G:mnc093.mcc208.3gppnetwork.org", "93", "208")
+				return nil
+			})
+			if site != "" {
+				return fail(i, "reauth:panic:"+site, "DeriveRESstarAndSetKey on a context in use panicked")
+			}
+			if g, h := ue.ULCount.Get(), ue.DLCount.Get(); g != ulBefore || h != dlBefore {
+				return fail(i, "reauth:counts-of-the-context-in-use-changed", "answering an authentication challenge changed the NAS COUNTs of the context in use: UL %#06x -> %#06x, DL %#06x -> %#06x (the new context only starts with the Security Mode Command)", ulBefore, g, dlBefore, h)
+			}
+			cls["re-authentication between downlink messages"] = true
+		}
 		var pdu []byte
 		used := last
 		protected := op.HT != 0
